@@ -6,7 +6,7 @@
    [engine_dotstar] (".*" matches every string) and [engine_prefix_law] (if ^q$ matches s and p is a
    token-prefix of q then ^p matches s).  [C08_compositional_engine] shows the second holds for
    every engine that is compositional over tokens. *)
-Require Import RIO.Base RIO.Prefix RIO.RegexSem RIO.Tree RIO.TreeProofs RIO.TreeInst.
+Require Import RIO.Base RIO.Prefix RIO.RegexSem RIO.Tree RIO.TreeProofs RIO.TreeInst RIO.TreeReplace.
 Close Scope N_scope.
 
 Definition ctree (V : Type) (valid : bool -> pat -> bool) (ic : bool) (ops : list (op V)) : item V :=
@@ -80,6 +80,97 @@ Proof.
   simpl. repeat split; auto; try discriminate; simpl; intuition discriminate.
 Qed.
 
+(* ---- storing a value under an existing (pattern, id) replaces it (RIO.TreeReplace) ----
+   [hist_ok_r] relaxes [hist_ok]: an insertion is also admissible when its id is live under the SAME
+   pattern; in the flat model [live_r] such an insertion rewrites that entry in place
+   ([replace_entry]).  Every [hist_ok] history is [hist_ok_r] with the same flat model
+   ([C08_relaxed_extends]). *)
+Theorem C08_insert_replaces : forall (V : Type) eng valid, engine_dotstar eng -> engine_prefix_law eng ->
+  forall ic (ops : list (op V)) p k v v0 s, hist_ok_r V shape_c [] ops -> In (p, (k, v0)) (live_r V ops) ->
+  let t := ctree V valid ic ops in
+  let t' := insert V cp_c take_c clen_c t p k v in
+  let L' := replace_entry V p k v (live_r V ops) in
+  Permutation (entries V t') L'
+  /\ len V t' = len V t
+  /\ Permutation (find V eng t' s) (map (value_of V) (filter (fun e => ML eng ic (fst e) s) L'))
+  /\ Permutation (get V t' p) (map (value_of V) (filter (fun e => pat_eqb (fst e) p) L'))
+  /\ In v (get V t' p)
+  /\ (forall e, In e (entries V t') -> id_of V e = k -> e = (p, (k, v))).
+Proof. intros V eng valid Hd Hp. exact (hist_insert_replaces_c V valid eng Hd Hp). Qed.
+
+(* the tree-level statement: under the invariant and the routing structure of reachable trees, with
+   unique ids, inserting a stored (pattern, id) rewrites exactly that entry *)
+Theorem C08_insert_entries_existing : forall (V : Type) tic (it : item V) re k v v0,
+  inv V shape_c tpre_c tic it -> rs_c V it -> NoDup (eids V it) -> In (re, (k, v0)) (entries V it) ->
+  Permutation (entries V (insert V cp_c take_c clen_c it re k v)) (replace_entry V re k v (entries V it))
+  /\ inv V shape_c tpre_c tic (insert V cp_c take_c clen_c it re k v)
+  /\ rs_c V (insert V cp_c take_c clen_c it re k v)
+  /\ NoDup (eids V (insert V cp_c take_c clen_c it re k v))
+  /\ len V (insert V cp_c take_c clen_c it re k v) = len V it.
+Proof. intros V. exact (insert_entries_existing_c V (fun _ _ => true)). Qed.
+
+Theorem C08_find_r : forall (V : Type) eng valid, engine_dotstar eng -> engine_prefix_law eng ->
+  forall ic (ops : list (op V)) s, hist_ok_r V shape_c [] ops ->
+  Permutation (find V eng (ctree V valid ic ops) s)
+              (map (value_of V) (filter (fun e => ML eng ic (fst e) s) (live_r V ops))).
+Proof. intros V eng valid Hd Hp. exact (hist_find_r_c V valid eng Hd Hp). Qed.
+
+Theorem C08_len_r : forall (V : Type) valid ic (ops : list (op V)), hist_ok_r V shape_c [] ops ->
+  len V (ctree V valid ic ops) = length (live_r V ops).
+Proof. intros V valid. exact (hist_len_r_c V valid). Qed.
+
+Theorem C08_get_r : forall (V : Type) valid ic (ops : list (op V)) re, hist_ok_r V shape_c [] ops ->
+  Permutation (get V (ctree V valid ic ops) re)
+              (map (value_of V) (filter (fun e => pat_eqb (fst e) re) (live_r V ops))).
+Proof. intros V valid. exact (hist_get_r_c V valid). Qed.
+
+Theorem C08_iter_r : forall (V : Type) valid ic (ops : list (op V)), hist_ok_r V shape_c [] ops ->
+  Permutation (all_values V (ctree V valid ic ops)) (map (value_of V) (live_r V ops)).
+Proof. intros V valid. exact (hist_iter_r_c V valid). Qed.
+
+(* the relaxed admissibility extends the strict one, with the same flat model *)
+Theorem C08_relaxed_extends : forall (V : Type) (ops : list (op V)), hist_ok V shape_c [] ops ->
+  hist_ok_r V shape_c [] ops /\ live_r V ops = live V ops.
+Proof. intros V ops H. exact (hist_ok_relax V shape_c ops [] H). Qed.
+
+(* prefix.rs: the computed size is the length of the LONGEST common token prefix *)
+Theorem C08_cut_longest : forall p q, forallb tok_ok p = true -> forallb tok_ok q = true ->
+  common_prefix_char_size (render p) (render q) = length (render (tlcp p q)).
+Proof. exact cp_c_tlcp. Qed.
+
+(* Non-vacuity of the relaxed hypothesis: a history that stores twice under a live (pattern, id)
+   (at a leaf below a split node, and after a removal / cache / retain), and what the tree then holds *)
+Definition ex_hist_r : list (op N) :=
+  [OInsert N (render ex_p1) [1]%N 1%N; OInsert N (render ex_p2) [2]%N 2%N; OInsert N (render ex_p3) [3]%N 3%N;
+   OInsert N (render ex_p1) [1]%N 10%N;
+   ORemove N [2]%N; OCache N 2%N None; ORetain N (fun k v => Some v);
+   OInsert N (render ex_p3) [3]%N 30%N; OInsert N (render ex_p2) [2]%N 5%N; OInsert N (render ex_p2) [2]%N 50%N].
+Example C08_example_hist_ok_r : hist_ok_r N shape_c [] ex_hist_r.
+Proof.
+  assert (H1 : shape_c (render ex_p1)) by (exists ex_p1; split; reflexivity).
+  assert (H2 : shape_c (render ex_p2)) by (exists ex_p2; split; reflexivity).
+  assert (H3 : shape_c (render ex_p3)) by (exists ex_p3; split; reflexivity).
+  unfold ex_hist_r. cbn [hist_ok_r]. unfold ins_ok_r.
+  repeat match goal with
+         | |- _ /\ _ => split
+         | |- True => exact I
+         | |- shape_c _ => assumption
+         | |- _ <> [] => discriminate
+         end.
+  - left. vm_compute. tauto.
+  - left. vm_compute. intuition discriminate.
+  - left. vm_compute. intuition discriminate.
+  - right. exists 1%N. vm_compute. tauto.
+  - right. exists 3%N. vm_compute. tauto.
+  - left. vm_compute. intuition discriminate.
+  - right. exists 5%N. vm_compute. tauto.
+Qed.
+Example C08_example_replaced :
+  let t := ctree N (fun _ _ => true) false ex_hist_r in
+  (len N t, get N t (render ex_p1), get N t (render ex_p2), get N t (render ex_p3)) = (3, [10%N], [50%N], [30%N])
+  /\ live_r N ex_hist_r = [(render ex_p1, ([1]%N, 10%N)); (render ex_p3, ([3]%N, 30%N)); (render ex_p2, ([2]%N, 50%N))].
+Proof. split; vm_compute; reflexivity. Qed.
+
 Print Assumptions C08_find.
 Print Assumptions C08_len.
 Print Assumptions C08_get.
@@ -87,3 +178,11 @@ Print Assumptions C08_iter.
 Print Assumptions C08_remove_returns.
 Print Assumptions C08_cut_aligned.
 Print Assumptions C08_compositional_engine.
+Print Assumptions C08_insert_replaces.
+Print Assumptions C08_insert_entries_existing.
+Print Assumptions C08_find_r.
+Print Assumptions C08_len_r.
+Print Assumptions C08_get_r.
+Print Assumptions C08_iter_r.
+Print Assumptions C08_relaxed_extends.
+Print Assumptions C08_cut_longest.
